@@ -599,6 +599,9 @@ func (fr *Frame) exec(ins ssa.Instruction) {
 			c.note("allocation of %s: %d leaf cells left unconstrained (sound over-approximation of zero memory)", shortType(et), leafCount(et))
 		}
 		fr.vals[x] = p
+		if x.Heap && x.Comment != "" && x.Comment != "complit" && x.Comment != "new" {
+			fr.registerImmCell(x, p)
+		}
 	case *ssa.FieldAddr:
 		p := fr.val(x.X)
 		fr.nilCheck(p, x.Pos(), "field address of nil pointer")
@@ -1508,6 +1511,9 @@ func (fr *Frame) returnAsserts(x *ssa.Return) {
 	}
 	ord := 0
 	for _, b := range fr.fn.Blocks {
+		if b == fr.fn.Recover {
+			continue // synthetic return of the recover block: not a source return statement
+		}
 		for _, ins := range b.Instrs {
 			if r, ok := ins.(*ssa.Return); ok && r != x && r.Pos() < x.Pos() {
 				ord++
